@@ -424,6 +424,16 @@ def replay_of(b, pt=None):
 
 
 # ------------------------------------------------------------------------------------------
+
+def pregen(ctx):
+    """regenerate coq/Generated/MathSrc.v from the CURRENT tools/math.py (fail-closed translator); Proofs/MathGen.v
+    proves the regenerated wrapped_difference equal to the model's, so a changed formula breaks a proof obligation"""
+    import os, sys
+    sys.path.insert(0, os.path.join(C.VERIF, "harness"))
+    import translate_pointwise as TP
+    TP.generate_math(C.REPO, C.COQ)
+
+
 def run(ctx):
     _run_main(ctx)
     import reuse_common
